@@ -19,17 +19,26 @@ def oracle(line: str, obs: Obs):
     fails = []
     ever_connected = set()
     ce_count = {}
+    dialled_name = {}
     for ev, lines in obs.blocks:
         t = ev.split(" ")
         if t[0] == "rx":
             # each connection carries at most one CER (RFC 6733 5.3): beyond that the history is outside the quantifier
             for d in t[2:]:
                 m = parse_msg(d)
-                if m["cmd"] == 257 and m["R"]:
+                if m["cmd"] == 257:
+                    # a second CER or CEA on one connection is outside the quantifier
                     ce_count[t[1]] = ce_count.get(t[1], 0) + 1
+                    # so is a CEA claiming another identity than the peer that was dialled
+                    dn = dialled_name.get(f"c{t[1]}")
+                    if not m["R"] and dn and m["keys"].get("oh") not in (None, dn):
+                        return fails
             if any(v > 1 for v in ce_count.values()):
                 return fails
         conns = {l.split(" ")[1]: kv(l) for l in lines if l.startswith("CONN ")}
+        for k, c in conns.items():
+            if c["dir"] == "S" and c["name"] != "-":
+                dialled_name[k] = c["name"]
         peers = {l.split(" ")[1]: kv(l) for l in lines if l.startswith("PEER ")}
         apps = {l.split(" ")[1]: kv(l) for l in lines if l.startswith("APPS ")}
         size = next((kv(l) for l in lines if l.startswith("SIZE ")), None)
@@ -39,7 +48,7 @@ def oracle(line: str, obs: Obs):
 
         def of_peer(c, p):
             # a connection of peer p: dialled to p, or identified as p by a successful exchange
-            return c["ident"] == p or (c["dir"] == "S" and c["name"] == p and c["ident"] == "-")
+            return (c["dir"] == "S" and c["name"] == p) or (c["dir"] == "R" and c["ident"] == p)
         live = {k: c for k, c in conns.items() if c["live"] == "1" and c["state"] != "CLOSED"}
         for p, pd in peers.items():
             mine = [k for k, c in live.items() if of_peer(c, p)]
